@@ -248,9 +248,10 @@ def handled_lines(parse, prog: Program) -> Dict[str, Set[str]]:
 
 # ------------------------------------------------------------------ generated descriptions
 class Gen:
-    def __init__(self, prog: Program, hook) -> None:
+    def __init__(self, prog: Program, hook, deep: bool = False) -> None:
         self.prog = prog
         self.hook = hook
+        self.deep = deep
 
     def mk(self, q: str, **kw: Any) -> Any:
         return new(self.prog, self.hook, q, **kw)
@@ -366,6 +367,17 @@ class Gen:
         for label, o in variants:
             out.append((f"audio: {label}", self.session([m("audio", "0", **o)])))
             out.append((f"video: {label}", self.session([m("video", "0", **o)], bundle=False)))
+        if self.deep:
+            # thorough tier: every pair of option classes at once, and every (direction, role) pair
+            for (l1, o1), (l2, o2) in itertools.combinations(variants, 2):
+                if set(o1) & set(o2):
+                    continue
+                o = dict(o1, **o2)
+                out.append((f"audio: {l1} + {l2}", self.session([m("audio", "0", **o)])))
+                out.append((f"video+application: {l1} + {l2}", self.session([m("video", "0", **o), m("application", "1", lite=o.get("lite", False))])))  # ice-lite is a session-level fact
+            for d in ("inactive", "sendonly", "recvonly", "sendrecv"):
+                for role in ("auto", "client", "server"):
+                    out.append((f"audio {d} / role {role} + video", self.session([m("audio", "0", direction=d, role=role), m("video", "1", direction=d, role=role)])))
         out.append(("application only", self.session([m("application", "0")])))
         out.append(("application legacy sctpmap", self.session([m("application", "0", legacy=True)])))
         out.append(("application, no candidates", self.session([m("application", "0", cands=[], complete=False)])))
@@ -471,7 +483,7 @@ def run(rep: Report, prog: Program, tier: str) -> None:
 
     # ---------------------------------------------------------------- C09-ROUND
     rep.rule("C09-ROUND", "generated descriptions: fixed point and field recovery", min_instances=40)
-    gen = Gen(prog, hook)
+    gen = Gen(prog, hook, deep=(tier == "thorough"))
     fam = gen.family()
     for label, sd in fam:
         try:
